@@ -1752,3 +1752,56 @@ def r18_rotation_tiles(ck, P, rid='C08-R18'):
                 ck.violation(R, fn, 'tile at %s' % c.loc(), '%s calls %s for the destination columns [%s, +%s) with the source offset %s, which is neither S * a (90 degrees) nor S * (W - a - w) (270 degrees) for these columns (a, W measured from the function\'s arguments): along this path the adjustments of dst, src and W before the call do not add up, so the tile is copied from the wrong source rows' % (fn, c.callee, doff, w, soff), c.loc())
     if n == 0:
         raise AnalysisBroken('%s: no tiled rotation copy found in pixman-fast-path.c' % rid)
+
+
+def r20_cover_from_corners_needs_affine(ck, P, rid='C09-R12'):
+    """T-GRD: the SAMPLES_COVER_CLIP flags that are derived from the *transformed* extents (the four corners, computed by the exact
+    rounding division of pixman_transform_point) promise something about every sample the fetchers compute.  For an affine transform
+    the fetchers add exact 16.16 steps to the same start point; for a projective one they divide per sample, truncating, with numerator
+    and denominator rounded to 16.16 first - the positions differ from the corners by more than one unit.  The flags (and the opaque
+    promotion of alpha-less sources that follows from them) are therefore granted only under a test of FAST_PATH_AFFINE_TRANSFORM."""
+    R = ck.rule(rid, 'every site that introduces FAST_PATH_SAMPLES_COVER_CLIP_NEAREST / _BILINEAR under comparisons of the transformed extents (box_48_16_t fields) is also guarded by a test that the image\'s flags contain FAST_PATH_AFFINE_TRANSFORM: under a projective transform the general fetcher divides per sample with truncation, a corner at x = 0.97/65536 is rounded to 1/65536 by pixman_transform_point and passes the test while the sample lands at -1, and an x8r8g8b8 source with REPEAT_NONE is promoted to opaque although that sample is transparent', floor=2)
+    C = consts.fast_path_flags()
+    cn, cb, aff = C['FAST_PATH_SAMPLES_COVER_CLIP_NEAREST'], C['FAST_PATH_SAMPLES_COVER_CLIP_BILINEAR'], C['FAST_PATH_AFFINE_TRANSFORM']
+    n = 0
+    for f in P.functions():
+        for x in f.insts():
+            if x.op != 'or' or not any(o[0] == 'c' and int(o[1]) > 0 and int(o[1]) & (cn | cb) and not (int(o[1]) & 0x80000000) for o in x.a):
+                continue
+            ge = f.guard_edges(x.bb.id)
+            ats = set()
+            for br, s in ge:
+                if br.a:
+                    ats |= f.atoms(br.a[0])
+            if not any(a[0] == 'field' and a[1].startswith(('box_48_16_t.', 'box_48_16.')) for a in ats):
+                continue
+            n += 1; ck.saw(f)
+            ok = False
+            for br, s in ge:
+                if br.op != 'br' or not br.a:
+                    continue
+                c, p, ops = f.cond(br.a[0])
+                if c is None or c.op != 'icmp' or p not in ('eq', 'ne') or len(ops) != 2:
+                    continue
+                taken_true = br.d['succ'][0] == s
+                for i in (0, 1):
+                    y = f.v(f.strip_casts(ops[i])) if ops[i][0] == 'v' else None
+                    k = ops[1 - i]
+                    if y is None or y.op != 'and' or k[0] != 'c':
+                        continue
+                    m = [o for o in y.a if o[0] == 'c']
+                    l = [f.v(o) for o in y.a if o[0] == 'v']
+                    if not m or not l or l[0] is None or l[0].op != 'load' or f.last_field(f.path(l[0].a[0])) != 'image_common.flags':
+                        continue
+                    M = int(m[0][1]) & 0xffffffff; K = int(k[1]) & 0xffffffff
+                    holds_all = (p == 'eq') == taken_true and K == M          # (flags & M) == M
+                    holds_any = (p == 'ne') == taken_true and K == 0 and M == aff   # (flags & AFFINE) != 0
+                    if M & aff and (holds_all or holds_any):
+                        ok = True
+            where = '%s: %s' % (f.name, x.loc())
+            if ok:
+                ck.ok(R, where, 'under FAST_PATH_AFFINE_TRANSFORM')
+            else:
+                ck.violation(R, f.name, 'COVER_CLIP from transformed corners', '%s grants SAMPLES_COVER_CLIP from the transformed corners of the request (%s) without requiring an affine transform: under a projective transform the fetchers\' per-sample truncating division does not agree with the corners\' rounding division, a sample just outside the image is reported as covered, and an alpha-less source with REPEAT_NONE is treated as opaque (OVER becomes SRC and writes the transparent sample)' % (f.name, x.loc()), x.loc())
+    if n == 0:
+        raise AnalysisBroken('%s: no site introduces a COVER_CLIP flag under comparisons of transformed extents' % rid)
